@@ -119,8 +119,13 @@ def cases(draw):
             T.Q([T.Q([])]), T.Q([]), T.M([]),
             T.M([('k', T.S('v'))]), T.M([('k', T.Q([T.S('v')]))]),
             T.Q([T.S('x'), T.M([(key_attr, T.S('k'))])])]))
+    pool = ['a', 'b_c', 'd-e', 'f_g_h']
+    if op in ('dash_unders', 'unders_dash'):
+        # separators at the ends, doubled, mixed, alone; non-ASCII words
+        pool = pool + ['a__b', '_x', 'x_', '__init__', '-y', 'y-', 'p--q', 'a_b-c', '_', '-',
+                       '__', '--', 'max__retries_', 'é_ü', 'é-ü', 'a_1', '1-a', 'a _b', 'a- b']
     pairs = [(a, draw(small_value())) for a in draw(
-        st.lists(st.sampled_from(['a', 'b_c', 'd-e', 'f_g_h']), max_size=3, unique=True))]
+        st.lists(st.sampled_from(pool), max_size=4 if len(pool) > 4 else 3, unique=True))]
     if target is not None:
         pairs.insert(draw(st.integers(0, len(pairs))), ('items', copy.deepcopy(target)))
     return {'tree': T.M(pairs), 'op': op, 'key': key_attr, 'val': val_attr,
